@@ -1587,9 +1587,15 @@ class ScopeStack:
         pattern_nested = re.compile(OutputReferenceNested)
 
         component_locations_to_check = [scope.location]
+        # VV: Producers may (erroneously) form a cycle, visit each location just once so that the walk terminates
+        visited_locations = set()
 
         while component_locations_to_check:
             location = component_locations_to_check.pop()
+
+            if tuple(location) in visited_locations:
+                continue
+            visited_locations.add(tuple(location))
 
             scope: ScopeStack.Scope = self.scopes[tuple(location)]
             if isinstance(scope.template, Workflow):
